@@ -455,6 +455,18 @@ def run(ctx):
                   and rd[0][1] is not None and rd[0][1] is not MANDATORY and rd[0][1][0] == 'const' and isinstance(rd[0][1][2], str), 'B2',
                   'AuthConfiguration.id is the typed `id` value (a fixed default when absent)',
                   key=('B2', 'AuthConfiguration', 'id'), site=site)
+    # what each loader hands back is the record it built from the mapping it was given in this very call - not one kept from an earlier
+    # call (a cache of records is keyed by *something*, and whatever the key leaves out is silently taken from the first entry loaded)
+    for fi_, S_, cname in ((lauth, LA, 'AuthConfiguration'), (lips, ctx.sval(lips), 'IpsecConfiguration'), (like, LK, 'IkeConfiguration')):
+        built = [strip_ids(c.term) for c in S_.calls_to(callee='namedtuple.' + cname)]
+        rets = [strip_ids(t) for _, t, _ in S_.returns]
+
+        def leaves(t):
+            return leaves(t[2]) + leaves(t[3]) if t[0] == 'cond' else [t]
+        odd = [t for r in rets for t in leaves(r) if t not in built]
+        ctx.check(bool(rets) and not odd, 'B2', '%s returns the %s it has just built from its argument' % (fi_.name, cname),
+                  key=('B2', fi_.name, 'returns-built-record'), site=ctx.site(fi_, fi_.node),
+                  detail={'other returns': [tq.text(t, 160) for t in odd]})
     check_payload_id(ctx)
     # ... and the PayloadID object keeps the type and the octets it is handed
     from .c05 import ctor_keeps_values
